@@ -95,7 +95,8 @@ Bad(key) == MarkBad(l) /\ TLCSet(3, Append(TLCGet(3), key))
 
 KLStep(e) ==
   \/ e.ev = "kl.reset"  /\ hs' = <<>> /\ ts' = <<>> /\ ss' = <<>> /\ hist' = <<>>
-  \/ e.ev = "kl.gen"    /\ KL!Generate(e.key)
+  \/ e.ev = "kl.gen"    /\ ~e.failed /\ KL!Generate(e.key)
+  \/ e.ev = "kl.gen"    /\ e.failed  /\ Bad("keylife/generate-" \o e.errclass \o ":" \o e.alg) /\ UNCHANGED klvars     \* a supported size always yields a key
   \/ e.ev = "kl.provide" /\ KL!Provide(e.key)
   \/ e.ev = "kl.export" /\ KL!Export(e.h)
   \/ e.ev = "kl.import" /\ ~e.failed /\ KL!Import(e.t, e.api)
